@@ -1,7 +1,7 @@
 PLAN = {
     "level": "exploration",
-    "quick": [replays("C11"), tape("C11", 20000, size=500)],
-    "thorough": [replays("C11"), tape("C11", 400000, size=500)],
+    "quick": [replays("C11"), tape("C11", 70000, size=500)],
+    "thorough": [replays("C11"), tape("C11", 800000, size=500)],
     "class_floors": {"entity:model": 0.1, "entity:component": 0.1, "entity:units": 0.05, "entity:variable": 0.05, "entity:reset": 0.02,
                      "reset-without-order": 0.01, "import-source": 0.03, "equivalence-with-ids": 0.01, "variable-units-owned-by-model": 0.05,
                      "mutated:clone": 0.3, "mutated:original": 0.3, "probe-known": 0.03},
